@@ -50,7 +50,7 @@ def run_demo(demo, netns):
 
 def main():
     global WT
-    src, name = sys.argv[1], sys.argv[2]
+    src, name = os.path.abspath(sys.argv[1]), sys.argv[2]
     netns = "--netns" in sys.argv
     if "--wt" in sys.argv:
         WT = sys.argv[sys.argv.index("--wt") + 1]
